@@ -127,6 +127,12 @@ def other_universes():
                 bs.append(q)
                 sh.append(f"alias={alias}/from={frm}/{extra or 'plain'}")
     out.append(("querybuilder", bs, sh))
+    # objects of DIFFERENT kinds that share a visible name: equality must stay symmetric / transitive / hash-coherent across kinds too
+    q2 = P.Query.from_(u).select(u.a)
+    out.append(("cross-kind", [P.Table("a"), P.Table("x", alias="a"), AliasedQuery("a"), AliasedQuery("a", q1), q1.as_("a"), q2.as_("a"), Schema("a"),
+                               P.Table("a", schema="a"), Database("a"), P.Table("a").for_(P.SYSTEM_TIME.as_of("2020-01-01"))],
+                ["table", "table-aliased-a", "aliasedquery", "aliasedquery-with-query", "builder-as-a", "builder2-as-a", "schema", "table-in-schema-a",
+                 "database", "table-temporal"]))
     return out
 
 
@@ -162,6 +168,38 @@ def run(tier: str) -> int:
             raise core.MachineryError(f"fields_/tables_ raised on {t['tree']}: {ex!r}")
         events.append({"tid": len(events), "kind": "tree", "tree": t["tree"], "fields": [list(f) for f in fields], "tables": tabs})
         meta.append(("tree", t))
+    # the same trees with a history: every node hashed and collected first, then re-targeted with replace_table and combined with the original
+    # (a hash or a collection remembered from before the re-targeting must not survive it)
+    from pypika_tortoise.terms import Function
+
+    tables["w"] = P.Table("w")
+
+    def retarget(x):
+        if isinstance(x, dict):
+            return {k: ("w" if k == "src" and v == "t" else retarget(v)) for k, v in x.items()}
+        if isinstance(x, list):
+            return [retarget(v) for v in x]
+        return x
+    for t in trees[:: (2 if tier == "quick" else 1)]:
+        if any(k in json.dumps(t["tree"]) for k in ('"in"', '"between"')):
+            continue  # replace_table does not reach IN items / BETWEEN bounds (findings of C16): the re-targeted twin would not be what the tree says
+        term = build_tree(t["tree"], tables)
+        try:
+            for nd in term.nodes_():
+                try:
+                    hash(nd)
+                except TypeError:
+                    pass
+            term.fields_(), term.tables_, str(term)
+            term2 = term.replace_table(tables["t"], tables["w"])
+            combo = Function("PAIR", term, term2)
+            fields = sorted({(f.table.get_table_name() if f.table is not None else "", f.name) for f in combo.fields_()})
+            tabs = sorted({x.get_table_name() for x in combo.tables_})
+        except Exception as ex:  # noqa
+            raise core.MachineryError(f"history over {t['tree']} raised: {ex!r}")
+        ctree = {"k": "call", "f": "PAIR", "args": [t["tree"], retarget(t["tree"])]}
+        events.append({"tid": len(events), "kind": "tree", "tree": ctree, "fields": [list(f) for f in fields], "tables": tabs})
+        meta.append(("tree", {"tree": ctree, "history": "hashed, collected, replace_table(t -> w), combined with the original"}))
     results = tlc.judge_shards("J_Eq", "INIT Init\nNEXT Next\n", events, shard=max(50, len(events) // 16 + 1), heap="4g", timeout=3000)
     rep.add_tlc(results)
     if sum(max(x.distinct - 1, 0) for x in results) != len(events):
@@ -175,8 +213,10 @@ def run(tier: str) -> int:
             if kind == "tree":
                 for b in v["bad"]:
                     tree = info["tree"]
-                    rep.discrepancy([[b[0], "collection", tree["k"] + (":" + tree.get("op", "") if tree["k"] == "bin" else "")]],
-                                    {"tree": tree, "expected": info[b[0]], "recorded": events[v["tid"]][b[0]]},
+                    hist = ["after-replace_table"] if info.get("history") else []
+                    inner = tree["args"][0] if hist else tree
+                    rep.discrepancy([[b[0], "collection", inner["k"] + (":" + inner.get("op", "") if inner["k"] == "bin" else "")] + hist],
+                                    {"tree": tree, "expected_count": b[1], "recorded": events[v["tid"]][b[0]], "history": info.get("history", "")},
                                     what=f"{b[0]}_ does not return every distinct reference of the expression")
                 continue
             seen = set()
